@@ -721,7 +721,12 @@ func applyHop(regs []*docState, h hop, tmp string) (obs *saveObs, err error) {
 					data.SetImageFromData(fmt.Sprintf("img%d", a.Name), imageBytes(a.Fmt, a.Atom), nil)
 				}
 			}
-			data.SetVariable("hv", hvValues[h.HV%len(hvValues)])
+			// (as a plain string, or as a value of a named string type: the text that lands in the header is the same)
+			if h.HV%3 == 1 {
+				data.SetVariable("hv", pkgNamedString(hvValues[h.HV%len(hvValues)]))
+			} else {
+				data.SetVariable("hv", hvValues[h.HV%len(hvValues)])
+			}
 			return data
 		}
 		var data *document.TemplateData
@@ -1484,3 +1489,5 @@ func surfaceStream(prop string, cfg *runCfg, res *Result, r *rng, tmp string) {
 		}
 	}
 }
+
+type pkgNamedString string
